@@ -1054,8 +1054,11 @@ class XsdElement(XsdComponent, ParticleMixin,
 
             elif self.fixed is not None:
                 elem.text = self.fixed
-            elif self.default is not None and context.use_defaults:
-                elem.text = self.default
+            elif self.default is not None:
+                if context.use_defaults:
+                    elem.text = self.default
+            elif validation != 'skip' and not xsd_type.text_is_valid(''):
+                errors.append(_("missing value for an element that can't be empty"))
 
         elif isinstance(xsd_type.content, XsdSimpleType):
             if xsd_type.content.max_length == 0:
@@ -1070,8 +1073,11 @@ class XsdElement(XsdComponent, ParticleMixin,
 
             elif self.fixed is not None:
                 elem.text = self.fixed
-            elif self.default is not None and context.use_defaults:
-                elem.text = self.default
+            elif self.default is not None:
+                if context.use_defaults:
+                    elem.text = self.default
+            elif validation != 'skip' and not xsd_type.content.text_is_valid(''):
+                errors.append(_("missing value for an element that can't be empty"))
 
         else:
             context.level += 1
